@@ -45,11 +45,9 @@ impl NodeStamp {
 
     pub fn as_removed(&mut self) {
         debug_assert!(!self.is_removed());
-        self.0 = if self.0 < i16::MAX {
-            -self.0 - 1
-        } else {
-            -self.0
-        };
+        // `-x - 1` maps the last generation `i16::MAX` to `i16::MIN`, which is
+        // not `reuseable()`: the slot is retired instead of reissuing an ID.
+        self.0 = -self.0 - 1;
     }
 
     pub fn reuseable(self) -> bool {
